@@ -372,6 +372,90 @@ def m_slice_ends(ex, callee, args, ret_ty, frame):
     return mk_option(ex, rt, VTuple([elem, VRef(ex.heap(rest, "subslice"), (), False)]))
 
 
+def m_extend_from_slice(ex, callee, args, ret_ty, frame):
+    dst, src = deref(ex, args[0]), deref(ex, args[1])
+    if not isinstance(dst, VSeq) or not isinstance(src, VSeq):
+        return NOT_HANDLED
+    n = concrete_len(ex, dst, "extend.dst")
+    m = concrete_len(ex, src, "extend.src")
+    for j in range(n):
+        ex.seq_item(dst, j)
+    for j in range(m):
+        ex.seq_item(src, j)
+    dst.length = n + m
+    dst.items = dst.items[:n] + [vcopy(x) for x in src.items[:m]]
+    return VUnit()
+
+
+def m_to_vec(ex, callee, args, ret_ty, frame):
+    src = deref(ex, args[0])
+    if not isinstance(src, VSeq):
+        return NOT_HANDLED
+    m = concrete_len(ex, src, "to_vec")
+    for j in range(m):
+        ex.seq_item(src, j)
+    return VSeq(src.elem_ty, m, [vcopy(x) for x in src.items[:m]], ex.new_vid())
+
+
+def m_iter_map(ex, callee, args, ret_ty, frame):
+    """Iterator::map: a lazy adaptor (inner iterator, closure)"""
+    return VStruct("MapIter", [args[0], args[1]], ex.new_vid())
+
+
+def drain(ex, it, frame):
+    """all remaining items of an iterator value (concrete length required)"""
+    out = []
+    if isinstance(it, VStruct) and base_ty(it.ty) == "MapIter":
+        for x in drain(ex, it.fields[0], frame):
+            r = ex.call_closure(it.fields[1], [x])
+            if r is None:
+                raise Unsupported("map over a closure whose MIR is not in the dump")
+            out.append(r)
+        return out
+    if isinstance(it, VStruct) and base_ty(it.ty) == "Range":
+        s, e = it.fields
+        a, b = s.concrete(), e.concrete()
+        if a is None or b is None:
+            raise Unsupported("drain of a symbolic range")
+        return [VInt(z3.BitVecVal(k, s.bits), s.signed) for k in range(a, b)]
+    if isinstance(it, VIter) and it.kind == "owned":
+        _need_concrete(it.seq, "drain")
+        return [vcopy(x) for x in it.seq.items[it.pos:]]
+    if isinstance(it, VSeq):
+        _need_concrete(it, "drain")
+        return [vcopy(x) for x in it.items]
+    raise Unsupported(f"drain of {it!r}")
+
+
+def m_vec_extend(ex, callee, args, ret_ty, frame):
+    dst = deref(ex, args[0])
+    if not isinstance(dst, VSeq):
+        return NOT_HANDLED
+    _need_concrete(dst, "extend")
+    items = drain(ex, args[1], frame)
+    dst.items += items
+    dst.length += len(items)
+    return VUnit()
+
+
+def m_collect_vec(ex, callee, args, ret_ty, frame):
+    items = drain(ex, args[0], frame)
+    et = ty_args(norm_ty(ret_ty))[0] if ret_ty and ty_args(norm_ty(ret_ty)) else "?"
+    return VSeq(et, len(items), items, ex.new_vid())
+
+
+def m_vec_try_into_array(ex, callee, args, ret_ty, frame):
+    m = re.search(r"TryInto<\[.*; (\d+)\]>>::try_into$", callee)
+    v = args[0]
+    if not m or not isinstance(v, VSeq):
+        return NOT_HANDLED
+    _need_concrete(v, "try_into array")
+    rt = norm_ty(ret_ty) if ret_ty else "Result"
+    if v.length == int(m.group(1)):
+        return mk_result(ex, rt, ok=VSeq(v.elem_ty, v.length, v.items, ex.new_vid()))
+    return mk_result(ex, rt, err=v)
+
+
 def m_vec_from_array(ex, callee, args, ret_ty, frame):
     # <[T]>::into_vec(Box<[T; N]>) / vec! macro lowering / Vec::from
     v = deref(ex, args[0])
@@ -507,7 +591,7 @@ BUILTIN = [
     (r"^<(Result|Option)<.*> as Try>::branch$", m_try_branch),
     (r" as FromResidual<.*>>::from_residual$", m_from_residual),
     (r"^<.+ as (Into|TryInto|From|TryFrom)<.+>>::(into|try_into|from|try_from)$", m_into),
-    (r"^<(String|Vec<.*>|Box<.*>|Rc<.*>|Arc<.*>) as (Deref|DerefMut|AsRef<.*>|Borrow<.*>)>::(deref|deref_mut|as_ref|borrow)$", m_identity_ref),
+    (r"^<(String|Vec<.*>|Box<.*>|Rc<.*>|Arc<.*>|&.*) as (Deref|DerefMut|AsRef<.*>|Borrow<.*>)>::(deref|deref_mut|as_ref|borrow)$", m_identity_ref),
     (r"^(String|Vec<.*>|Vec)::(as_str|as_slice|as_mut_slice|as_bytes)$", m_identity_ref),
     (r"^<.+ as Clone>::clone$", m_clone),
     (r"^must_use", m_must_use),
@@ -521,6 +605,12 @@ BUILTIN = [
     (r"^<impl \[.*\]>::iter$", m_slice_iter),
     (r"^Vec(::)?(<.*>)?::iter$", m_slice_iter),
     (r"^<impl \[.*\]>::reverse$", m_slice_reverse),
+    (r"^Vec(::)?(<.*>)?::extend_from_slice$", m_extend_from_slice),
+    (r"^<impl \[.*\]>::to_vec$|^<\[.*\] as ToOwned>::to_owned$", m_to_vec),
+    (r"^<.+ as Iterator>::map::<", m_iter_map),
+    (r"^<Vec<.*> as Extend<.*>>::extend::<", m_vec_extend),
+    (r"^<.+ as Iterator>::collect::<Vec<.*>>$", m_collect_vec),
+    (r"^<Vec<.*> as TryInto<\[.*; \d+\]>>::try_into$", m_vec_try_into_array),
     (r"^<impl \[.*\]>::(first|last|split_first|split_last|get)(::<.*>)?$", m_slice_ends),
     (r"^<impl \[.*\]>::into_vec", m_vec_from_array),
     (r"^<.+ as IntoIterator>::into_iter$", m_into_iter),
